@@ -23,6 +23,10 @@ SCRIPTS = [
     'fileinto "a";',
     'require ["date","relational"];\nif currentdate :value "ge" "date" "2019" { keep; }',
     'if address :count "ge" "to" "3" { keep; }',
+    # commands registered with add_commands (ensure_custom): classes derived from concrete built-in commands, with more required arguments
+    # (the built-in bases in one script, the derived commands in another: which one a process meets first must not matter)
+    'redirect "b@example.com";\nif exists "to" { keep; }\n',
+    'fwdtwo "a@example.com" "hello";\nif existsin "to" "INBOX" { keep; }\n',
 ]
 FS_OPS = [
     ("add-plain", [("Subject", ":is", "x")], [("fileinto", "B")]),
@@ -35,7 +39,24 @@ FS_OPS = [
     ("add-body-regex", [("body", ":raw", ":regex", "x+")], [("discard",)]),
     ("add-fileinto-Copy-mixedcase", [("Subject", ":contains", "x")], [("fileinto", ":Copy", ":CREATE", "B")]),
     ("add-header-Regex-mixedcase", [("Subject", ":Regex", "a.*")], [("keep", ":Flags", "\\Seen")]),
+    ("add-fwdtwo-custom", [("Subject", ":is", "x")], [("fwdtwo", "a@example.com", "hello")]),
 ]
+
+
+def ensure_custom(ns):
+    """registers (idempotently, without executing any command code) two commands derived from concrete built-in ones"""
+    C = ns.commands
+    if getattr(C, "FwdtwoCommand", None) is not None:
+        return
+
+    class FwdtwoCommand(C.RedirectCommand):
+        args_definition = [{"name": "address", "type": ["string"], "required": True}, {"name": "note", "type": ["string"], "required": True}]
+
+    class ExistsinCommand(C.ExistsCommand):
+        args_definition = [{"name": "header-names", "type": ["string", "stringlist"], "required": True},
+                           {"name": "mailbox", "type": ["string"], "required": True}]
+
+    C.add_commands([FwdtwoCommand, ExistsinCommand])
 
 
 def parse_outcome(ns, parser, text):
@@ -95,29 +116,49 @@ def fs_outcome(ns, fs, op_i, parser=None):
 _saved = None
 
 
-def _mutable_slots(ns):
+def _is_state(v):
+    return not (callable(v) or isinstance(v, (types.ModuleType, classmethod, staticmethod, property, type)))
+
+
+def _holders(ns):
+    """the sievelib modules and every class found in them (incl. classes registered with add_commands)"""
     mods = [ns.commands, ns.parser, ns.factory, ns.tools]
+    seen = set()
     for m in mods:
-        for k, v in list(vars(m).items()):
-            if k.startswith("__"):
+        yield m
+        for v in list(vars(m).values()):
+            if isinstance(v, type) and id(v) not in seen and (getattr(v, "__module__", "").startswith("sievelib") or issubclass(v, ns.commands.Command)):
+                seen.add(id(v))
+                yield v
+
+
+def _mutable_slots(ns):
+    for h in _holders(ns):
+        for k, v in list(vars(h).items()):
+            if k.startswith("__") or not _is_state(v):
                 continue
-            if isinstance(v, (list, dict, set)):
-                yield (m, k)
-            elif isinstance(v, type) and getattr(v, "__module__", None) == m.__name__:
-                for ck, cv in list(vars(v).items()):
-                    if ck.startswith("__"):
-                        continue
-                    if isinstance(cv, (list, dict, set)):
-                        yield (v, ck)
+            if isinstance(h, types.ModuleType) and not isinstance(v, (list, dict, set)):
+                continue  # module-level constants / typing aliases
+            yield (h, k)
 
 
 def save_state(ns):
+    """every module-level container and every non-callable class attribute (containers deep-copied), plus the set of attribute names, so
+    that attributes a history adds to a class (e.g. a memo) are removed again before the next history"""
     global _saved
-    _saved = [(o, k, copy.deepcopy(getattr(o, k))) for o, k in _mutable_slots(ns)]
+    _saved = ([(o, k, copy.deepcopy(getattr(o, k))) for o, k in _mutable_slots(ns)], {id(h): (h, set(vars(h))) for h in _holders(ns) if isinstance(h, type)})
 
 
 def restore_state(ns):
-    for o, k, v in _saved:
+    slots, names = _saved
+    for h, keys in names.values():
+        for k in list(vars(h)):
+            if k not in keys and not k.startswith("__"):
+                try:
+                    delattr(h, k)
+                except Exception:  # noqa
+                    pass
+    for o, k, v in slots:
         setattr(o, k, copy.deepcopy(v))
 
 
@@ -137,6 +178,7 @@ def state_fingerprint(ns):
 def baseline_task(t):
     """runs in a process forked from a parent that never executed sievelib code (maxtasksperchild=1)"""
     ns = seams.load()
+    ensure_custom(ns)
     kind = t[0]
     if kind == "parse":
         p = ns.parser.Parser()
@@ -216,6 +258,7 @@ def _short(o):
 def hist_task(t):
     first, depth, base_parse, base_fs = t
     ns = seams.load()
+    ensure_custom(ns)
     if _saved is None:
         save_state(ns)
     evs = events()
@@ -236,7 +279,7 @@ def hist_task(t):
             viols.append({"property": "C13", "engine": "factory",
                           "signature": ["C13", ev_label(culprit).split(".", 1)[1] if culprit[0] == "fs" else "parse(script%d)" % culprit[2],
                                         "after:" + (ev_label(prev[-1]).split(".", 1)[1] if prev else "nothing"), clause],
-                          "fs_alphabet": "v2",
+                          "fs_alphabet": "v3",
                           "what": "history %s: %s" % (" ; ".join(ev_label(e) for e in hist[:k + 1]), text),
                           "case": {"history": [list(e) for e in hist[:k + 1]]},
                           "witness": " ; ".join(ev_label(e) for e in hist[:k + 1]), "observed": text[:200]})
@@ -290,6 +333,7 @@ def run(tier, seed):
 def replay_task(t):
     hist, base_parse, base_fs = t
     ns = seams.load()
+    ensure_custom(ns)
     if _saved is None:
         save_state(ns)
     return run_history(ns, hist, base_parse, base_fs)
